@@ -14,6 +14,13 @@
 //!     a prefix of a valid order) and passes the audit.
 //! A multi-threaded stress variant (S-mt) runs larger operation counts on a multi-thread runtime
 //! with the same convergence audit.
+//! Section `triples` enumerates every ordered triple (first call, second call, holder of the
+//! exclusive operation gate) over one document / one doc-lock stripe with the first call parked at
+//! each of its suspension points and the other two queued in both orders: a wedge is decided on
+//! logical grounds (no call enabled, calls unfinished), completed histories go through the oracles
+//! above. Section `ext_threads` overlaps the synchronous functional extension setters of the
+//! collection and of the database on OS threads with unambiguous histories (counters, append-only
+//! logs, a log that is taken away by `remove_extension` meanwhile).
 
 use anda_db::query::{Filter, RangeQuery};
 use anda_db::schema::Fv;
@@ -41,6 +48,10 @@ enum COp {
     SetExt(String, u64),
     Flush,
     Compact,
+    /// the other holders of the exclusive operation gate (section `triples` only)
+    CompactBm25,
+    Reconcile,
+    Close,
 }
 
 impl COp {
@@ -66,6 +77,9 @@ impl COp {
             COp::SetExt(..) => "set_extension",
             COp::Flush => "flush",
             COp::Compact => "compact",
+            COp::CompactBm25 => "compact_bm25",
+            COp::Reconcile => "reconcile",
+            COp::Close => "close",
         }
     }
 }
@@ -81,10 +95,16 @@ enum CRes {
     Done,
     NotFound,
     Conflict,
+    /// refused by the handle's lifecycle / read-only state (legal only once a close was called)
+    Refused,
     Err(String),
 }
 
 fn classify(e: &anda_db::error::DBError) -> CRes {
+    use anda_db::error::CollectionState as S;
+    if matches!(e.collection_state(), Some(S::Closing | S::Closed)) {
+        return CRes::Refused;
+    }
     match e {
         anda_db::error::DBError::NotFound { .. } => CRes::NotFound,
         anda_db::error::DBError::AlreadyExists { .. } => CRes::Conflict,
@@ -92,6 +112,14 @@ fn classify(e: &anda_db::error::DBError) -> CRes {
             let s = format!("{other:?}");
             if s.contains("AlreadyExists") { CRes::Conflict } else { CRes::Err(s) }
         }
+    }
+}
+
+/// Error of a call that has no modelled rejection: refused by a closing / closed handle, or unexpected.
+fn other_err(e: &anda_db::error::DBError) -> CRes {
+    match classify(e) {
+        CRes::Refused => CRes::Refused,
+        _ => CRes::Err(format!("{e:?}")),
     }
 }
 
@@ -154,7 +182,38 @@ fn gen_config(rng: &mut Rng, stripe: bool, ext_heavy: bool) -> Config {
     Config { cfg, post_reads, n_initial, label: format!("{}{}{}{}", if stripe { "stripe:" } else { "" }, if ext_heavy { "ext:" } else { "" }, if post_reads { "postread:" } else { "" }, kinds.join("+")), ops }
 }
 
+/// Directed schedule (section `triples`): task 0 is polled `park` times - it is then parked at its
+/// `park`-th suspension point (before a backend call, or after a backend read with the response in
+/// hand) holding whatever it holds there -, the other tasks are started with one poll each in
+/// `start` order (each runs until it queues on a lock or reaches its own first backend call), then
+/// everything is released under `release`.
+struct Plan {
+    park: u32,
+    start: Vec<usize>,
+    release: Release,
+}
+
+enum Release {
+    /// always poll the first enabled task of this priority list
+    Prio(Vec<usize>),
+    Rand(u64),
+}
+
+enum Sched<'a> {
+    Free(&'a mut dyn Chooser),
+    Directed(&'a Plan),
+}
+
+#[derive(Default, Debug)]
+struct Shape {
+    /// task 0 was still unfinished after `park` polls (the park point exists)
+    reached: bool,
+    /// per started task: its first poll ended at a lock wait (no backend call of its own pending)
+    queued: Vec<bool>,
+}
+
 struct Outcome {
+    shape: Shape,
     results: Vec<CRes>,
     call: Vec<usize>,
     ret: Vec<usize>,
@@ -164,7 +223,7 @@ struct Outcome {
     initial: Model,
 }
 
-async fn run_schedule(c: &Config, chooser: &mut dyn Chooser, st: &mut Stats) -> Option<(Outcome, Arc<anda_db::collection::Collection>, RecStore)> {
+async fn run_schedule(c: &Config, sched: Sched<'_>, st: &mut Stats) -> Option<(Outcome, Arc<anda_db::collection::Collection>, RecStore)> {
     let store = RecStore::new();
     store.set_record_reads(false);
     let mut d = match Driver::start(Arc::new(store.clone()), c.cfg, IndexSet::ALL).await {
@@ -218,24 +277,27 @@ async fn run_schedule(c: &Config, chooser: &mut dyn Chooser, st: &mut Stats) -> 
                 COp::Get(id) => match coll.get_as::<FDoc>(id).await {
                     Ok(f) => CRes::Got(Some(Box::new(f))),
                     Err(anda_db::error::DBError::NotFound { .. }) => CRes::Got(None),
-                    Err(e) => CRes::Err(format!("{e:?}")),
+                    Err(e) => other_err(&e),
                 },
                 COp::Query(word) => {
                     let q = anda_db::query::Query { search: Some(anda_db::query::Search { text: Some(word), ..Default::default() }),
                         filter: Some(Filter::Field(("age".into(), RangeQuery::Ge(Fv::U64(0))))), limit: Some(50) };
-                    coll.search_ids(q).await.map(CRes::Ids).unwrap_or_else(|e| CRes::Err(format!("{e:?}")))
+                    coll.search_ids(q).await.map(CRes::Ids).unwrap_or_else(|e| other_err(&e))
                 }
-                COp::SaveExt(k, v) => coll.save_extension(k, Fv::U64(v)).await.map(|_| CRes::Done).unwrap_or_else(|e| CRes::Err(format!("{e:?}"))),
+                COp::SaveExt(k, v) => coll.save_extension(k, Fv::U64(v)).await.map(|_| CRes::Done).unwrap_or_else(|e| other_err(&e)),
                 COp::RemoveExt(k) => match coll.remove_extension(&k).await {
                     Ok(v) => CRes::Ext(v.and_then(|v| match v { Fv::U64(x) => Some(x), _ => None })),
-                    Err(e) => CRes::Err(format!("{e:?}")),
+                    Err(e) => other_err(&e),
                 },
                 COp::SetExt(k, v) => {
                     coll.set_extension(k, Fv::U64(v));
                     CRes::Done
                 }
-                COp::Flush => coll.flush(anda_db::unix_ms()).await.map(|_| CRes::Done).unwrap_or_else(|e| CRes::Err(format!("{e:?}"))),
-                COp::Compact => coll.compact_btree_index(&["uname"]).await.map(|_| CRes::Done).unwrap_or_else(|e| CRes::Err(format!("{e:?}"))),
+                COp::Flush => coll.flush(anda_db::unix_ms()).await.map(|_| CRes::Done).unwrap_or_else(|e| other_err(&e)),
+                COp::Compact => coll.compact_btree_index(&["uname"]).await.map(|_| CRes::Done).unwrap_or_else(|e| other_err(&e)),
+                COp::CompactBm25 => coll.compact_bm25_index(&["body"]).await.map(|_| CRes::Done).unwrap_or_else(|e| other_err(&e)),
+                COp::Reconcile => coll.reconcile_storage().await.map(|_| CRes::Done).unwrap_or_else(|e| other_err(&e)),
+                COp::Close => coll.close().await.map(|_| CRes::Done).unwrap_or_else(|e| other_err(&e)),
             }
         });
     }
@@ -245,7 +307,7 @@ async fn run_schedule(c: &Config, chooser: &mut dyn Chooser, st: &mut Stats) -> 
     let ops = &c.ops;
     let store2 = store.clone();
     let post_reads = c.post_reads;
-    let r = ex.run(chooser, 6000, |ex, i, done| {
+    let mut on_step = |ex: &mut ManualExec<'_, CRes>, i: usize, done: bool| {
         if done {
             ret[i] = ex.trace.len() - 1;
             if matches!(ops[i], COp::Flush) && matches!(ex.result(i), Some(CRes::Done)) {
@@ -258,14 +320,67 @@ async fn run_schedule(c: &Config, chooser: &mut dyn Chooser, st: &mut Stats) -> 
                 snaps.push((ex.trace.len() - 1, snap));
             }
         }
-    });
+    };
+    let mut shape = Shape::default();
+    let r = match sched {
+        Sched::Free(chooser) => ex.run(chooser, 6000, &mut on_step),
+        Sched::Directed(plan) => 'run: {
+            // 1. park the first call
+            for _ in 0..plan.park {
+                if ex.is_done(0) || !ex.enabled().contains(&0) {
+                    break;
+                }
+                let done = ex.poll(0);
+                on_step(&mut ex, 0, done);
+            }
+            shape.reached = !ex.is_done(0) && ex.polls(0) == plan.park;
+            // 2. the other calls arrive, in this order
+            for &t in &plan.start {
+                let done = ex.poll(t);
+                on_step(&mut ex, t, done);
+                shape.queued.push(!done && !ex.enabled().contains(&t));
+            }
+            // 3. release. A task that is not enabled waits for a lock (a task parked at a backend call
+            //    wakes itself): with nothing enabled and calls unfinished, every one of them waits for
+            //    a lock that only another waiting call can release - no backend call is outstanding.
+            let mut rc = match &plan.release {
+                Release::Rand(s) => Some(RandChooser(Rng::new(*s))),
+                Release::Prio(_) => None,
+            };
+            let mut steps = 0;
+            loop {
+                if ex.all_done() {
+                    break 'run Ok(());
+                }
+                let en = ex.enabled();
+                if en.is_empty() {
+                    break 'run Err(Stuck::Deadlock(ex.unfinished()));
+                }
+                steps += 1;
+                if steps > 6000 {
+                    break 'run Err(Stuck::StepCap);
+                }
+                let i = match (&plan.release, rc.as_mut()) {
+                    (Release::Prio(p), _) => p.iter().copied().find(|t| en.contains(t)).unwrap_or(en[0]),
+                    (_, Some(rc)) => en[if en.len() == 1 { 0 } else { rc.choose(en.len()) }],
+                    _ => en[0],
+                };
+                let done = ex.poll(i);
+                on_step(&mut ex, i, done);
+            }
+        }
+    };
     store.set_gate(false);
     store.set_gate_after_reads(false);
     let trace = ex.trace.clone();
     match r {
         Ok(()) => {}
         Err(Stuck::Deadlock(t)) => {
-            st.violation("C05/deadlock", json!({"blocked_tasks": t, "schedule": trace, "ops": c.ops.iter().map(|o| o.brief()).collect::<Vec<_>>()}));
+            // decided on logical grounds, not by a clock: no task is enabled, so no backend call is
+            // outstanding and the driver holds nothing closed; the blocked calls wait for each other
+            st.violation("C05/deadlock", json!({"configuration": c.label, "blocked_tasks": t, "blocked": t.iter().map(|i| c.ops[*i].brief()).collect::<Vec<_>>(),
+                "returned": (0..c.ops.len()).filter(|i| !t.contains(i)).map(|i| c.ops[i].brief()).collect::<Vec<_>>(),
+                "schedule": trace, "ops": c.ops.iter().map(|o| o.brief()).collect::<Vec<_>>()}));
             return None;
         }
         Err(Stuck::StepCap) => {
@@ -307,7 +422,7 @@ async fn run_schedule(c: &Config, chooser: &mut dyn Chooser, st: &mut Stats) -> 
             Err(e) => snapshots.push((pos, Err(e))),
         }
     }
-    Some((Outcome { results, call, ret, trace, snapshots, initial }, coll, store))
+    Some((Outcome { shape, results, call, ret, trace, snapshots, initial }, coll, store))
 }
 
 /// Applies mutation `i` to `m` in the sequential model; None when the recorded result cannot be
@@ -360,6 +475,9 @@ fn apply_seq(m: &mut Model, handed: &mut BTreeSet<u64>, op: &COp, res: &CRes) ->
             m.ext.remove(k);
             Some(())
         }
+        // refused by a closing / closed handle: no effect (whether the refusal itself was legal is
+        // decided by `judge_close`)
+        (_, CRes::Refused) => Some(()),
         _ => None,
     }
 }
@@ -405,6 +523,41 @@ fn linearizations(c: &Config, o: &Outcome, extra: &[(usize, usize)], limit: usiz
     out
 }
 
+/// Oracle 2: every overlapping read returned a version of the document that lies, along some valid
+/// order, between the last write that returned before the read was called and the last write that
+/// was called before the read returned.
+fn check_reads(c: &Config, o: &Outcome, lins: &[(Vec<usize>, Vec<Model>)], st: &mut Stats, ctx: &dyn Fn() -> Value) -> bool {
+    for (i, op) in c.ops.iter().enumerate() {
+        if let (COp::Get(id), CRes::Got(got)) = (op, &o.results[i]) {
+            st.count("oracle_overlapping_reads");
+            let mut ok = false;
+            for (order, states) in lins {
+                // versions of the document along this order
+                let mut versions: Vec<(Option<&FDoc>, usize, usize)> = vec![(states[0].docs.get(id), 0, 0)]; // (value, call, ret) of producer
+                for (k, &mi) in order.iter().enumerate() {
+                    let v = states[k + 1].docs.get(id);
+                    if v != versions.last().unwrap().0 {
+                        versions.push((v, o.call[mi], o.ret[mi]));
+                    }
+                }
+                // not older than the last write that returned before the read was called, not
+                // newer than the last write that was called before the read returned
+                let lo = versions.iter().rposition(|(_, _, r)| *r < o.call[i] || *r == 0).unwrap_or(0);
+                let hi = versions.iter().rposition(|(_, cl, _)| *cl < o.ret[i] || *cl == 0).unwrap_or(0);
+                if versions[lo..=hi.max(lo)].iter().any(|(v, _, _)| v.cloned() == got.as_deref().cloned()) {
+                    ok = true;
+                    break;
+                }
+            }
+            if !ok {
+                st.violation("C05/read_returned_unexplained_document", json!({"read": i, "got": format!("{got:?}"), "context": ctx()}));
+                return false;
+            }
+        }
+    }
+    true
+}
+
 async fn judge(c: &Config, o: &Outcome, coll: &anda_db::collection::Collection, store: &RecStore, mode: &str, st: &mut Stats) -> bool {
     let ctx = || {
         json!({"mode": mode, "cfg": format!("{:?}", c.cfg), "schedule": o.trace,
@@ -413,6 +566,10 @@ async fn judge(c: &Config, o: &Outcome, coll: &anda_db::collection::Collection, 
     for (i, r) in o.results.iter().enumerate() {
         if let CRes::Err(e) = r {
             st.violation(format!("C05/unexpected_error/{}", c.ops[i].kind()), json!({"error": e, "context": ctx()}));
+            return false;
+        }
+        if *r == CRes::Refused {
+            st.violation(format!("C05/unexpected_error/{}", c.ops[i].kind()), json!({"error": "refused as closing / closed although no close was called", "context": ctx()}));
             return false;
         }
     }
@@ -460,33 +617,8 @@ async fn judge(c: &Config, o: &Outcome, coll: &anda_db::collection::Collection, 
         return false;
     }
     // 2. reads that overlap writers
-    for (i, op) in c.ops.iter().enumerate() {
-        if let (COp::Get(id), CRes::Got(got)) = (op, &o.results[i]) {
-            st.count("oracle_overlapping_reads");
-            let mut ok = false;
-            for (order, states) in &lins {
-                // versions of the document along this order
-                let mut versions: Vec<(Option<&FDoc>, usize, usize)> = vec![(states[0].docs.get(id), 0, 0)]; // (value, call, ret) of producer
-                for (k, &mi) in order.iter().enumerate() {
-                    let v = states[k + 1].docs.get(id);
-                    if v != versions.last().unwrap().0 {
-                        versions.push((v, o.call[mi], o.ret[mi]));
-                    }
-                }
-                // not older than the last write that returned before the read was called, not
-                // newer than the last write that was called before the read returned
-                let lo = versions.iter().rposition(|(_, _, r)| *r < o.call[i] || *r == 0).unwrap_or(0);
-                let hi = versions.iter().rposition(|(_, cl, _)| *cl < o.ret[i] || *cl == 0).unwrap_or(0);
-                if versions[lo..=hi.max(lo)].iter().any(|(v, _, _)| v.cloned() == got.as_deref().cloned()) {
-                    ok = true;
-                    break;
-                }
-            }
-            if !ok {
-                st.violation("C05/read_returned_unexplained_document", json!({"read": i, "got": format!("{got:?}"), "context": ctx()}));
-                return false;
-            }
-        }
+    if !check_reads(c, o, &lins, st, &ctx) {
+        return false;
     }
     // 4. what a concurrent flush persisted
     for (pos, snap) in &o.snapshots {
@@ -555,6 +687,69 @@ async fn judge(c: &Config, o: &Outcome, coll: &anda_db::collection::Collection, 
     true
 }
 
+/// Sets whose third call is `close` (section `triples`). A call that returned after the close was
+/// called may have been refused (no effect); the accepted ones must linearize, and what the clean
+/// close made durable must be the result of such an order - read back from a cold reopen, since the
+/// closed handle is retired.
+async fn judge_close(c: &Config, o: &Outcome, store: &RecStore, mode: &str, st: &mut Stats) -> bool {
+    let ctx = || {
+        json!({"mode": mode, "cfg": format!("{:?}", c.cfg), "schedule": o.trace,
+               "history": (0..c.ops.len()).map(|i| format!("t{i} [{}..{}] {} -> {}", o.call[i], o.ret[i], c.ops[i].brief(), { let s = format!("{:?}", o.results[i]); if s.len() > 300 { format!("{}..", &s[..300]) } else { s } })).collect::<Vec<_>>()})
+    };
+    let Some(ci) = c.ops.iter().position(|op| matches!(op, COp::Close)) else { return true };
+    for (i, r) in o.results.iter().enumerate() {
+        match r {
+            CRes::Err(e) => {
+                st.violation(format!("C05/unexpected_error/{}", c.ops[i].kind()), json!({"error": e, "context": ctx()}));
+                return false;
+            }
+            CRes::Refused if i == ci || o.ret[i] < o.call[ci] => {
+                st.violation(format!("C05/unexpected_error/{}", c.ops[i].kind()), json!({"error": "refused as closing / closed before any close was called (or the close itself was refused)", "context": ctx()}));
+                return false;
+            }
+            CRes::Refused => st.count("calls_refused_by_a_concurrent_close"),
+            _ => {}
+        }
+    }
+    st.count("oracle_linearizability_searches");
+    let lins = linearizations(c, o, &[], 64);
+    if lins.is_empty() {
+        st.violation("C05/not_linearizable", json!({"context": ctx()}));
+        return false;
+    }
+    if !check_reads(c, o, &lins, st, &ctx) {
+        return false;
+    }
+    st.count("oracle_durable_after_concurrent_close");
+    let snap = store.snapshot().await;
+    let r = async {
+        let db = connect(snap.clone(), &c.cfg).await.map_err(|e| format!("connect: {e:?}"))?;
+        let col = open_coll(&db, IndexSet::ALL).await.map_err(|e| format!("open: {e:?}"))?;
+        let mut docs = BTreeMap::new();
+        for id in col.ids() {
+            docs.insert(id, col.get_as::<FDoc>(id).await.map_err(|e| format!("get({id}): {e:?}"))?);
+        }
+        let ext: BTreeMap<String, u64> = ["k0", "k1"].iter().filter_map(|k| col.get_extension_as::<u64>(k).map(|v| (k.to_string(), v))).collect();
+        Ok::<_, String>((docs, ext, col))
+    }
+    .await;
+    match r {
+        Err(e) => {
+            st.violation("C05/reopen_after_clean_close_failed", json!({"error": e, "context": ctx()}));
+            false
+        }
+        Ok((docs, ext, col)) => {
+            let want_ext = |m: &Model| m.ext.iter().filter(|(k, _)| k.as_str() == "k0" || k.as_str() == "k1").map(|(k, v)| (k.clone(), *v)).collect::<BTreeMap<String, u64>>();
+            let Some((_, states)) = lins.iter().find(|(_, s)| s.last().unwrap().docs == docs && want_ext(s.last().unwrap()) == ext) else {
+                st.violation("C05/state_after_concurrent_close_matches_no_valid_order", json!({"reopened_documents": format!("{docs:?}"), "reopened_extensions": format!("{ext:?}"),
+                    "expected_one_of": lins.iter().map(|(_, s)| format!("{:?} {:?}", s.last().unwrap().docs, s.last().unwrap().ext)).collect::<Vec<_>>(), "context": ctx()}));
+                return false;
+            };
+            audit(&col, states.last().unwrap(), IndexSet::ALL, st, &AuditCtx { sig: "C05/audit_after_concurrent_close", ctx: &ctx }).await
+        }
+    }
+}
+
 fn case(case: u64, rng: &mut Rng, st: &mut Stats, budget: u64) {
     let stripe = case % 8 == 7;
     // one configuration in four is dominated by extension writers (save / remove / the synchronous
@@ -568,7 +763,7 @@ fn case(case: u64, rng: &mut Rng, st: &mut Stats, budget: u64) {
         let mut exhausted = false;
         loop {
             dfs.begin_run();
-            let Some((o, coll, store)) = run_schedule(&c, &mut dfs, st).await else { return };
+            let Some((o, coll, store)) = run_schedule(&c, Sched::Free(&mut dfs), st).await else { return };
             runs += 1;
             st.eval();
             st.count("schedules_run");
@@ -591,7 +786,7 @@ fn case(case: u64, rng: &mut Rng, st: &mut Stats, budget: u64) {
         if !exhausted {
             let mut rc = RandChooser(rng.fork());
             for _ in 0..budget / 2 {
-                let Some((o, coll, store)) = run_schedule(&c, &mut rc, st).await else { return };
+                let Some((o, coll, store)) = run_schedule(&c, Sched::Free(&mut rc), st).await else { return };
                 st.eval();
                 st.count("schedules_run");
                 st.set("distinct_schedules", vcore::hash_debug(&o.trace) ^ case.wrapping_mul(0x9e3779b97f4a7c15));
@@ -613,6 +808,177 @@ fn case(case: u64, rng: &mut Rng, st: &mut Stats, budget: u64) {
             st.count(&format!("cop:{}", o.kind()));
         }
         st.sample(|| json!({"configuration": c.label, "ops": c.ops.iter().map(|o| o.brief()).collect::<Vec<_>>(), "schedules": runs, "exhaustive": exhausted}));
+    });
+}
+
+// ---------------------------------------------------------------------------------------------
+// Section `triples`: the shape "one call parked at a backend call while holding whatever it holds,
+// a second call queued, a third call that needs the exclusive operation gate queued as well, then
+// release" made systematic. The random sets above only meet it when the generator happens to draw
+// the three kinds over one document; here every ordered triple (first, second, holder of the
+// exclusive gate) is enumerated, the first call is parked at EACH of its suspension points (before
+// every backend call, and after every backend read with the response in hand), the other two arrive
+// in both orders, and the release runs under several priority orders. A wedge is decided on logical
+// grounds (nothing enabled, calls unfinished); histories that complete go through the same oracles.
+
+#[derive(Clone, Copy, Debug, PartialEq, Eq, Hash)]
+enum K {
+    Update,
+    Remove,
+    Get,
+    Add,
+    SaveExt,
+    RemoveExt,
+}
+
+#[derive(Clone, Copy, Debug, PartialEq, Eq, Hash)]
+enum X {
+    Flush,
+    CompactBtree,
+    CompactBm25,
+    Reconcile,
+    Close,
+}
+
+const KS: [K; 6] = [K::Update, K::Remove, K::Get, K::Add, K::SaveExt, K::RemoveExt];
+const XS: [X; 5] = [X::Flush, X::CompactBtree, X::CompactBm25, X::Reconcile, X::Close];
+
+#[derive(Clone, Copy, Debug, Hash)]
+struct Combo {
+    a: K,
+    b: K,
+    /// document of the second call: 1 = the first call's document, 129 = another document of the
+    /// same doc-lock stripe
+    b_id: u64,
+    x: X,
+    /// the holder of the exclusive gate arrives before the second call
+    x_first: bool,
+}
+
+fn combos() -> Vec<Combo> {
+    let mut v = vec![];
+    for a in KS {
+        for b in KS {
+            for x in XS {
+                for x_first in [false, true] {
+                    v.push(Combo { a, b, b_id: 1, x, x_first });
+                }
+            }
+        }
+    }
+    for a in [K::Update, K::Remove] {
+        for b in [K::Update, K::Remove] {
+            for x in [X::Flush, X::Close] {
+                for x_first in [false, true] {
+                    v.push(Combo { a, b, b_id: 129, x, x_first });
+                }
+            }
+        }
+    }
+    v
+}
+
+fn k_op(k: K, id: u64, tag: u64) -> COp {
+    match k {
+        K::Update => {
+            let mut p = Patch::new();
+            p.insert("uname".into(), Fv::Text(format!("tri-u{tag}")));
+            p.insert("age".into(), Fv::U64(40 + tag));
+            p.insert("body".into(), Fv::Text(format!("kernel lemon tag{tag}")));
+            COp::Update(id, p)
+        }
+        K::Remove => COp::Remove(id),
+        K::Get => COp::Get(id),
+        K::Add => {
+            let mut d = gen_doc(&mut Rng::new(900 + tag), 6);
+            d.uname = format!("tri-new{tag}");
+            d.codes = vec![format!("tri-c{tag}")];
+            d.grp = "gn".into();
+            d.slot = 500 + tag;
+            COp::Add(d)
+        }
+        K::SaveExt => COp::SaveExt("k0".into(), 100 + tag),
+        K::RemoveExt => COp::RemoveExt("k0".into()),
+    }
+}
+
+fn x_op(x: X) -> COp {
+    match x {
+        X::Flush => COp::Flush,
+        X::CompactBtree => COp::Compact,
+        X::CompactBm25 => COp::CompactBm25,
+        X::Reconcile => COp::Reconcile,
+        X::Close => COp::Close,
+    }
+}
+
+fn triple_case(case: u64, rng: &mut Rng, st: &mut Stats, all: &[Combo], thorough: bool) {
+    let co = all[case as usize % all.len()];
+    let ops = vec![k_op(co.a, 1, 1), k_op(co.b, co.b_id, 2), x_op(co.x)];
+    let kinds = format!("{}({})|{}({})|{}", ops[0].kind(), 1, ops[1].kind(), co.b_id, ops[2].kind());
+    // every read of the first call reaches the backend with the cache off; one combination in four
+    // is additionally run with the cache on (other suspension points: cache fills)
+    let mut caches = vec![false];
+    if thorough || rng.chance(1, 4) {
+        caches.push(true);
+    }
+    let start = if co.x_first { vec![2, 1] } else { vec![1, 2] };
+    block_on(async {
+        for cache in caches {
+            let cfg = Cfg { cache, compress: *rng.pick(&[0, 3]), bucket: *rng.pick(&[64usize, 1 << 20]) };
+            let mut full_shape_seen = false;
+            for park in 1..=48u32 {
+                let mut releases = vec![Release::Prio(vec![0, 1, 2]), Release::Prio(vec![2, 1, 0]), Release::Prio(vec![1, 2, 0]), Release::Rand(rng.next_u64())];
+                if thorough {
+                    releases.extend([Release::Prio(vec![1, 0, 2]), Release::Prio(vec![0, 2, 1]), Release::Prio(vec![2, 0, 1]), Release::Rand(rng.next_u64())]);
+                }
+                let mut reached = false;
+                for (ri, release) in releases.into_iter().enumerate() {
+                    let plan = Plan { park, start: start.clone(), release };
+                    let c = Config { cfg, post_reads: true, n_initial: if co.b_id > 4 { 130 } else { 4 }, ops: ops.clone(),
+                        label: format!("triple:{kinds} first parked after {park} polls, arrival order {:?}, release {}, cache {cache}", plan.start,
+                            match &plan.release { Release::Prio(p) => format!("priority {p:?}"), Release::Rand(s) => format!("random({s})") }) };
+                    let Some((o, coll, store)) = run_schedule(&c, Sched::Directed(&plan), st).await else { return };
+                    if !o.shape.reached {
+                        break; // the first call has fewer suspension points than `park`
+                    }
+                    reached = true;
+                    st.eval();
+                    st.count("triple_schedules");
+                    st.set("distinct_schedules", vcore::hash_debug(&o.trace) ^ vcore::hash_debug(&co) ^ (cache as u64) << 7);
+                    if ri == 0 {
+                        st.count("triple_park_points");
+                        st.count(&format!("triple_first:{}", ops[0].kind()));
+                        st.count(&format!("triple_third:{}", ops[2].kind()));
+                        let (second_queued, third_queued) = if co.x_first { (o.shape.queued[1], o.shape.queued[0]) } else { (o.shape.queued[0], o.shape.queued[1]) };
+                        if second_queued {
+                            st.count("triple_second_call_queued_on_a_lock");
+                        }
+                        if third_queued {
+                            st.count("triple_exclusive_call_queued_on_the_gate");
+                        }
+                        if second_queued && third_queued {
+                            st.count("triple_both_queued_behind_the_parked_call");
+                            full_shape_seen = true;
+                        }
+                    }
+                    let ok = if co.x == X::Close { judge_close(&c, &o, &store, &c.label, st).await } else { judge(&c, &o, &coll, &store, &c.label, st).await };
+                    if !ok {
+                        return;
+                    }
+                }
+                if !reached {
+                    st.max("max_triple_park_points", (park - 1) as u64);
+                    break;
+                }
+            }
+            st.set("triple_combinations", vcore::hash_debug(&co));
+            if full_shape_seen {
+                st.set("triple_combinations_with_both_queued", vcore::hash_debug(&co));
+            }
+        }
+        st.distinct(vcore::hash_debug(&co));
+        st.sample(|| json!({"section": "triples", "combination": kinds, "exclusive_call_arrives_first": co.x_first}));
     });
 }
 
@@ -716,18 +1082,517 @@ fn stress_case(case: u64, rng: &mut Rng, st: &mut Stats, tasks: usize, ops_per_t
     });
 }
 
+// ---------------------------------------------------------------------------------------------
+// Section `ext_threads`: the functional extension setters (`set_extension_with`,
+// `set_extension_from_with`, on the collection and on the database) are synchronous read-modify-write
+// calls: no await, no backend call, so the schedules above cannot put anything between their read
+// and their write - only OS threads can. 2-4 threads hammer a handful of keys with updates whose
+// histories are unambiguous: counters (every call adds one) and logs (every call appends its own
+// unique tag). Serial execution in SOME order means: the values the closures were handed form one
+// chain from the initial value to the final one (no value handed out twice = no acknowledged update
+// lost, none applied twice), the previous value a call returns is the one its update was computed
+// from, and a thread's own calls appear in the order it made them.
+
+#[derive(Clone, Copy, Debug, PartialEq, Eq)]
+enum Level {
+    Collection,
+    Database,
+}
+
+/// The four functional setters behind one face.
+trait ExtTarget: Sync {
+    fn with(&self, key: &str, f: &mut dyn FnMut(Option<&Fv>) -> Option<Fv>) -> Option<Fv>;
+    fn from_with_u64(&self, key: &str, f: &mut dyn FnMut(Option<u64>) -> Option<u64>) -> Option<u64>;
+    fn from_with_list(&self, key: &str, f: &mut dyn FnMut(Option<Vec<u64>>) -> Option<Vec<u64>>) -> Option<Vec<u64>>;
+    fn read(&self, key: &str) -> Option<Fv>;
+}
+
+impl ExtTarget for anda_db::collection::Collection {
+    fn with(&self, key: &str, f: &mut dyn FnMut(Option<&Fv>) -> Option<Fv>) -> Option<Fv> {
+        self.set_extension_with(key.to_string(), |o| f(o))
+    }
+    fn from_with_u64(&self, key: &str, f: &mut dyn FnMut(Option<u64>) -> Option<u64>) -> Option<u64> {
+        self.set_extension_from_with::<_, u64>(key.to_string(), |o| f(o))
+    }
+    fn from_with_list(&self, key: &str, f: &mut dyn FnMut(Option<Vec<u64>>) -> Option<Vec<u64>>) -> Option<Vec<u64>> {
+        self.set_extension_from_with::<_, Vec<u64>>(key.to_string(), |o| f(o))
+    }
+    fn read(&self, key: &str) -> Option<Fv> {
+        self.get_extension(key)
+    }
+}
+
+impl ExtTarget for anda_db::database::AndaDB {
+    fn with(&self, key: &str, f: &mut dyn FnMut(Option<&Fv>) -> Option<Fv>) -> Option<Fv> {
+        self.set_extension_with(key.to_string(), |o| f(o))
+    }
+    fn from_with_u64(&self, key: &str, f: &mut dyn FnMut(Option<u64>) -> Option<u64>) -> Option<u64> {
+        self.set_extension_from_with::<_, u64>(key.to_string(), |o| f(o))
+    }
+    fn from_with_list(&self, key: &str, f: &mut dyn FnMut(Option<Vec<u64>>) -> Option<Vec<u64>>) -> Option<Vec<u64>> {
+        self.set_extension_from_with::<_, Vec<u64>>(key.to_string(), |o| f(o))
+    }
+    fn read(&self, key: &str) -> Option<Fv> {
+        self.get_extension(key)
+    }
+}
+
+/// key -> (is a log, API used: 0 = set_extension_with, 1 = set_extension_from_with, 2 = both in turn)
+const EXT_KEYS: [(&str, bool, u8); 6] = [("ctr_with", false, 0), ("ctr_from_with", false, 1), ("ctr_both", false, 2), ("log_with", true, 0), ("log_from_with", true, 1), ("log_both", true, 2)];
+
+fn fv_u64(v: Option<&Fv>) -> Result<u64, String> {
+    match v {
+        None => Ok(0),
+        Some(Fv::U64(x)) => Ok(*x),
+        Some(other) => Err(format!("{other:?}")),
+    }
+}
+
+fn fv_list(v: Option<&Fv>) -> Result<Vec<u64>, String> {
+    match v {
+        None => Ok(vec![]),
+        Some(Fv::Array(a)) => a.iter().map(|x| match x { Fv::U64(x) => Ok(*x), other => Err(format!("{other:?}")) }).collect(),
+        Some(other) => Err(format!("{other:?}")),
+    }
+}
+
+/// One functional-setter call as its caller saw it. Counters: `seen` / `returned` hold one element
+/// (0 = absent); logs: the whole list.
+#[derive(Debug, Clone)]
+struct ExtCall {
+    thread: usize,
+    key: usize,
+    api: u8,
+    /// unique per call (the appended log entry)
+    tag: u64,
+    /// the closure returned None: the call must change nothing and return None
+    noop: bool,
+    seen: Result<Vec<u64>, String>,
+    returned: Result<Vec<u64>, String>,
+    /// another thread was inside a setter call while this call's closure ran
+    overlapped: bool,
+}
+
+struct Rendezvous {
+    in_call: std::sync::atomic::AtomicUsize,
+    closures: std::sync::atomic::AtomicU64,
+}
+
+/// Runs inside the caller's closure, i.e. between the setter's read and its write: seeded pauses, and
+/// in a quarter of the calls a bounded wait for another thread to arrive at a setter (with the
+/// repository's locking that thread sits at the metadata lock until this closure returns; the wait
+/// is bounded in iterations, never in time, and decides nothing).
+fn closure_pause(rng: &mut Rng, rv: &Rendezvous) -> bool {
+    use std::sync::atomic::Ordering::SeqCst;
+    let mine = rv.closures.fetch_add(1, SeqCst) + 1;
+    let before = rv.in_call.load(SeqCst) > 1;
+    match rng.below(8) {
+        0..=2 => {}
+        3 => std::thread::yield_now(),
+        4 => {
+            for _ in 0..rng.below(400) {
+                std::hint::spin_loop();
+            }
+        }
+        5 => std::thread::sleep(std::time::Duration::from_micros(rng.below(30))),
+        _ => {
+            for _ in 0..150 {
+                if rv.in_call.load(SeqCst) > 1 {
+                    break;
+                }
+                std::thread::yield_now();
+            }
+            for _ in 0..40 {
+                if rv.closures.load(SeqCst) != mine {
+                    break;
+                }
+                std::thread::yield_now();
+            }
+        }
+    }
+    before || rv.in_call.load(SeqCst) > 1
+}
+
+fn ext_worker(target: &dyn ExtTarget, thread: usize, calls: usize, rng: &mut Rng, rv: &Rendezvous) -> Vec<ExtCall> {
+    use std::sync::atomic::Ordering::SeqCst;
+    let mut out = Vec::with_capacity(calls);
+    for i in 0..calls {
+        let key = rng.usize(EXT_KEYS.len());
+        let (name, is_log, api) = EXT_KEYS[key];
+        let api = if api == 2 { rng.below(2) as u8 } else { api };
+        let tag = ((thread as u64 + 1) << 20) | (i as u64 + 1);
+        let noop = rng.chance(1, 12);
+        let mut seen: Result<Vec<u64>, String> = Err("closure not called".into());
+        let mut overlapped = false;
+        rv.in_call.fetch_add(1, SeqCst);
+        let returned: Result<Vec<u64>, String> = match (is_log, api) {
+            (false, 0) => {
+                let r = target.with(name, &mut |old| {
+                    let cur = fv_u64(old);
+                    seen = cur.clone().map(|x| vec![x]);
+                    overlapped = closure_pause(rng, rv);
+                    if noop { None } else { Some(Fv::U64(cur.unwrap_or(0) + 1)) }
+                });
+                fv_u64(r.as_ref()).map(|x| vec![x])
+            }
+            (false, _) => {
+                let r = target.from_with_u64(name, &mut |old| {
+                    let cur = old.unwrap_or(0);
+                    seen = Ok(vec![cur]);
+                    overlapped = closure_pause(rng, rv);
+                    if noop { None } else { Some(cur + 1) }
+                });
+                Ok(vec![r.unwrap_or(0)])
+            }
+            (true, 0) => {
+                let r = target.with(name, &mut |old| {
+                    let cur = fv_list(old);
+                    seen = cur.clone();
+                    overlapped = closure_pause(rng, rv);
+                    let mut l = cur.unwrap_or_default();
+                    l.push(tag);
+                    if noop { None } else { Some(Fv::Array(l.into_iter().map(Fv::U64).collect())) }
+                });
+                fv_list(r.as_ref())
+            }
+            (true, _) => {
+                let r = target.from_with_list(name, &mut |old| {
+                    let mut l = old.unwrap_or_default();
+                    seen = Ok(l.clone());
+                    overlapped = closure_pause(rng, rv);
+                    l.push(tag);
+                    if noop { None } else { Some(l) }
+                });
+                Ok(r.unwrap_or_default())
+            }
+        };
+        rv.in_call.fetch_sub(1, SeqCst);
+        out.push(ExtCall { thread, key, api, tag, noop, seen, returned, overlapped });
+        if rng.chance(1, 6) {
+            std::thread::yield_now();
+        }
+    }
+    out
+}
+
+/// Judges the calls on one key against "they ran one at a time in some order that respects each
+/// thread's own order". Returns (signature suffix, detail) of the first contradiction.
+/// `removed`: what the (single) thread that calls `remove_extension` on this key got back, in its
+/// call order: every removal ends one chain and the next update starts a new one from "absent".
+fn judge_ext_key(key: usize, calls: &[&ExtCall], removed: &[Vec<u64>], fin: Option<&Fv>) -> Option<(&'static str, Value)> {
+    let (name, is_log, _) = EXT_KEYS[key];
+    let show = |c: &ExtCall| json!({"thread": c.thread, "tag": c.tag, "api": if c.api == 0 { "set_extension_with" } else { "set_extension_from_with" }, "noop": c.noop,
+        "closure_was_handed": format!("{:?}", c.seen), "returned_previous": format!("{:?}", c.returned)});
+    for c in calls {
+        if c.seen.is_err() || c.returned.is_err() {
+            return Some(("extension_value_of_foreign_shape", json!({"key": name, "call": show(c)})));
+        }
+    }
+    let acked: Vec<&&ExtCall> = calls.iter().filter(|c| !c.noop).collect();
+    // position of every acknowledged call in the chain
+    let mut pos: Vec<(usize, &ExtCall)> = vec![];
+    if is_log {
+        let fin = match fv_list(fin) {
+            Ok(l) => l,
+            Err(e) => return Some(("extension_value_of_foreign_shape", json!({"key": name, "final": e}))),
+        };
+        // the chains in the order they existed: the removed lists, then the live one
+        let segs: Vec<&Vec<u64>> = removed.iter().chain(std::iter::once(&fin)).collect();
+        for c in &acked {
+            let at: Vec<(usize, usize)> = segs.iter().enumerate().flat_map(|(si, seg)| seg.iter().enumerate().filter(|(_, t)| **t == c.tag).map(move |(i, _)| (si, i))).collect();
+            match at.as_slice() {
+                [] => return Some(("acknowledged_extension_update_lost", json!({"key": name, "lost": show(c), "final": format!("{fin:?}"), "removed": format!("{removed:?}"), "acknowledged_updates": acked.len()}))),
+                [(si, p)] => {
+                    if c.seen.as_ref().unwrap() != &segs[*si][..*p] {
+                        return Some(("extension_updates_not_serial", json!({"key": name, "call": show(c), "its_entry_is_at": p, "of_the_list": format!("{:?}", segs[*si])})));
+                    }
+                    pos.push((si * 1_000_000 + p, **c));
+                }
+                _ => return Some(("extension_update_applied_twice", json!({"key": name, "call": show(c), "final": format!("{fin:?}"), "removed": format!("{removed:?}")}))),
+            }
+        }
+        if segs.iter().map(|s| s.len()).sum::<usize>() != acked.len() {
+            return Some(("extension_holds_entries_nobody_wrote", json!({"key": name, "final": format!("{fin:?}"), "removed": format!("{removed:?}"), "acknowledged_updates": acked.len()})));
+        }
+    } else {
+        let fin = match fv_u64(fin) {
+            Ok(x) => x,
+            Err(e) => return Some(("extension_value_of_foreign_shape", json!({"key": name, "final": e}))),
+        };
+        let mut by_seen: BTreeMap<u64, Vec<&ExtCall>> = BTreeMap::new();
+        for c in &acked {
+            by_seen.entry(c.seen.as_ref().unwrap()[0]).or_default().push(**c);
+        }
+        if let Some((v, cs)) = by_seen.iter().find(|(_, cs)| cs.len() > 1) {
+            // two acknowledged increments computed from the same value: one of them overwrote the other
+            return Some(("acknowledged_extension_update_lost", json!({"key": name, "both_computed_from": v, "calls": cs.iter().map(|c| show(c)).collect::<Vec<_>>(),
+                "final": fin, "acknowledged_updates": acked.len()})));
+        }
+        if fin != acked.len() as u64 {
+            return Some((if fin < acked.len() as u64 { "acknowledged_extension_update_lost" } else { "extension_update_applied_twice" },
+                json!({"key": name, "final": fin, "acknowledged_updates": acked.len()})));
+        }
+        for (v, cs) in &by_seen {
+            if *v >= fin {
+                return Some(("extension_updates_not_serial", json!({"key": name, "call": show(cs[0]), "final": fin})));
+            }
+            pos.push((*v as usize, cs[0]));
+        }
+    }
+    // each call's return value is the one that order produces
+    for c in calls {
+        let (Ok(seen), Ok(ret)) = (&c.seen, &c.returned) else { continue };
+        if c.noop {
+            if !ret.iter().all(|x| *x == 0) {
+                return Some(("declined_extension_update_returned_a_value", json!({"key": name, "call": show(c)})));
+            }
+        } else if seen != ret {
+            // the value the insert displaced is not the value the new one was computed from
+            return Some(("extension_update_returned_wrong_previous_value", json!({"key": name, "call": show(c)})));
+        }
+    }
+    // a thread's own calls take effect in the order it made them (tags grow with the call number)
+    pos.sort_by_key(|(p, _)| *p);
+    let mut last: BTreeMap<usize, u64> = BTreeMap::new();
+    for (_, c) in &pos {
+        if let Some(prev) = last.insert(c.thread, c.tag) {
+            if prev > c.tag {
+                return Some(("extension_updates_against_the_callers_own_order", json!({"key": name, "call": show(c), "took_effect_after_its_later_call_with_tag": prev})));
+            }
+        }
+    }
+    // a declined call saw a value of the chain
+    for c in calls.iter().filter(|c| c.noop) {
+        let seen = c.seen.as_ref().unwrap();
+        let ok = if is_log { fv_list(fin).map(|f| f.starts_with(seen)).unwrap_or(false) || removed.iter().any(|r| r.starts_with(seen)) } else { seen[0] <= acked.len() as u64 };
+        if !ok {
+            return Some(("extension_updates_not_serial", json!({"key": name, "declined_call": show(c)})));
+        }
+    }
+    None
+}
+
+fn ext_threads_case(case: u64, rng: &mut Rng, st: &mut Stats, calls: usize) {
+    let level = if case % 2 == 0 { Level::Collection } else { Level::Database };
+    let lv = if level == Level::Collection { "collection" } else { "database" };
+    let n_threads = 2 + (case / 2 % 3) as usize;
+    // half of the cases: one more thread issues the asynchronous extension calls and flushes on a key
+    // of its own while the setters run (same metadata object, same version counter)
+    let side = case % 4 >= 2;
+    let cfg = Cfg { cache: rng.bool(), compress: 0, bucket: 1 << 20 };
+    let store = Arc::new(object_store::memory::InMemory::new());
+    let set = IndexSet(IndexSet::UNAME | IndexSet::AGE);
+    let (coll, db) = match block_on(async {
+        let db = connect(store.clone(), &cfg).await?;
+        let c = open_coll(&db, set).await?;
+        Ok::<_, anda_db::error::DBError>((c, db))
+    }) {
+        Ok(x) => x,
+        Err(e) => {
+            st.inconclusive(format!("C05 ext_threads: setup failed: {e:?}"));
+            return;
+        }
+    };
+    let target: &dyn ExtTarget = match level {
+        Level::Collection => &*coll,
+        Level::Database => &db,
+    };
+    let rv = Rendezvous { in_call: Default::default(), closures: Default::default() };
+    let barrier = std::sync::Barrier::new(n_threads + side as usize);
+    let seed = rng.next_u64();
+    let stop = std::sync::atomic::AtomicBool::new(false);
+    let (per_thread, side_errs, removed_logs): (Vec<Vec<ExtCall>>, Vec<String>, Vec<Vec<u64>>) = std::thread::scope(|s| {
+        let hs: Vec<_> = (0..n_threads)
+            .map(|t| {
+                let (rv, barrier) = (&rv, &barrier);
+                s.spawn(move || {
+                    let mut rng = Rng::derive(seed, t as u64);
+                    barrier.wait();
+                    ext_worker(target, t, calls, &mut rng, rv)
+                })
+            })
+            .collect();
+        let sh = side.then(|| {
+            let (barrier, stop, coll, db) = (&barrier, &stop, &coll, &db);
+            s.spawn(move || {
+                let mut rng = Rng::derive(seed, 99);
+                let mut errs = vec![];
+                let mut removed: Vec<Vec<u64>> = vec![];
+                barrier.wait();
+                let mut i = 0u64;
+                while !stop.load(std::sync::atomic::Ordering::SeqCst) && i < 400 {
+                    i += 1;
+                    let r: Result<(), String> = block_on(async {
+                        match (level, rng.below(4)) {
+                            (Level::Collection, 0) => coll.flush(anda_db::unix_ms()).await.map(|_| ()).map_err(|e| format!("flush: {e:?}")),
+                            (Level::Database, 0) => db.flush_metadata(anda_db::unix_ms()).await.map_err(|e| format!("flush_metadata: {e:?}")),
+                            (_, 1) => {
+                                // the plain setter, then the value must be there: nobody else writes this key
+                                match level {
+                                    Level::Collection => coll.set_extension("side".into(), Fv::U64(i)),
+                                    Level::Database => db.set_extension("side".into(), Fv::U64(i)),
+                                }
+                                let got = target.read("side");
+                                if got != Some(Fv::U64(i)) { Err(format!("set_extension(side, {i}) by the key's only writer, then get_extension = {got:?}")) } else { Ok(()) }
+                            }
+                            (_, 2) => {
+                                let r = match level {
+                                    Level::Collection => coll.save_extension("side".into(), Fv::U64(i)).await,
+                                    Level::Database => db.save_extension("side".into(), Fv::U64(i)).await,
+                                };
+                                let got = target.read("side");
+                                match r {
+                                    Err(e) => Err(format!("save_extension: {e:?}")),
+                                    Ok(()) if got != Some(Fv::U64(i)) => Err(format!("save_extension(side, {i}) by the key's only writer, then get_extension = {got:?}")),
+                                    Ok(()) => Ok(()),
+                                }
+                            }
+                            (_, 3) if rng.chance(1, 2) => {
+                                // take away a log the setter threads are appending to: what comes back is
+                                // one whole chain, the appends that follow start a new one
+                                let r = match level {
+                                    Level::Collection => coll.remove_extension("log_both").await,
+                                    Level::Database => db.remove_extension("log_both").await,
+                                };
+                                match r {
+                                    Err(e) => Err(format!("remove_extension: {e:?}")),
+                                    Ok(None) => Ok(()),
+                                    Ok(Some(old)) => match fv_list(Some(&old)) {
+                                        Ok(l) => {
+                                            removed.push(l);
+                                            Ok(())
+                                        }
+                                        Err(e) => Err(format!("remove_extension(log_both) returned a value nobody wrote: {e}")),
+                                    },
+                                }
+                            }
+                            _ => {
+                                let before = target.read("side");
+                                let r = match level {
+                                    Level::Collection => coll.remove_extension("side").await,
+                                    Level::Database => db.remove_extension("side").await,
+                                };
+                                match r {
+                                    Err(e) => Err(format!("remove_extension: {e:?}")),
+                                    Ok(old) if old != before => Err(format!("remove_extension(side) by the key's only writer returned {old:?}, the key held {before:?}")),
+                                    Ok(_) if target.read("side").is_some() => Err("remove_extension(side) returned, the key is still there".to_string()),
+                                    Ok(_) => Ok(()),
+                                }
+                            }
+                        }
+                    });
+                    if let Err(e) = r {
+                        errs.push(e);
+                        break;
+                    }
+                    if rng.chance(1, 3) {
+                        std::thread::yield_now();
+                    }
+                }
+                (i, errs, removed)
+            })
+        });
+        let per: Vec<Vec<ExtCall>> = hs.into_iter().map(|h| h.join().unwrap_or_default()).collect();
+        stop.store(true, std::sync::atomic::Ordering::SeqCst);
+        let (side_errs, removed) = match sh.map(|h| h.join()) {
+            None => (vec![], vec![]),
+            Some(Ok((n, errs, removed))) => {
+                st.add("ext_thread_side_calls", n);
+                st.add("ext_thread_logs_removed_under_the_setters", removed.len() as u64);
+                (errs, removed)
+            }
+            Some(Err(_)) => (vec!["side thread panicked".to_string()], vec![]),
+        };
+        (per, side_errs, removed)
+    });
+    if per_thread.iter().any(|v| v.len() != calls) {
+        st.inconclusive("C05 ext_threads: a worker thread did not finish its calls");
+        return;
+    }
+    st.eval();
+    st.count("ext_thread_cases");
+    st.count(&format!("ext_thread_cases:{lv}"));
+    st.add("ext_thread_calls", (n_threads * calls) as u64);
+    let ctx = || json!({"case": case, "level": lv, "threads": n_threads, "calls_per_thread": calls, "async_side_thread": side});
+    if let Some(e) = side_errs.first() {
+        st.violation(format!("C05/threads/{lv}/extension_of_a_single_writer_changed_under_it"), json!({"error": e, "context": ctx()}));
+        return;
+    }
+    let all: Vec<&ExtCall> = per_thread.iter().flatten().collect();
+    for key in 0..EXT_KEYS.len() {
+        let calls_k: Vec<&ExtCall> = all.iter().copied().filter(|c| c.key == key).collect();
+        let fin = target.read(EXT_KEYS[key].0);
+        st.count("oracle_extension_update_chains");
+        st.add(&format!("ext_thread_updates:{}", if EXT_KEYS[key].1 { "log" } else { "counter" }), calls_k.iter().filter(|c| !c.noop).count() as u64);
+        for c in &calls_k {
+            st.count(if c.api == 0 { "ext_thread_calls:set_extension_with" } else { "ext_thread_calls:set_extension_from_with" });
+            if c.overlapped {
+                st.count(&format!("ext_thread_closures_run_while_another_caller_was_in_a_setter:{lv}"));
+            }
+        }
+        let removed: &[Vec<u64>] = if EXT_KEYS[key].0 == "log_both" { &removed_logs } else { &[] };
+        if let Some((sig, detail)) = judge_ext_key(key, &calls_k, removed, fin.as_ref()) {
+            st.violation(format!("C05/threads/{lv}/{sig}"), json!({"detail": detail, "context": ctx()}));
+            return;
+        }
+    }
+    // what the handle shows is what a flush makes durable (cold reopen of a copy of the store)
+    let live: BTreeMap<String, Option<Fv>> = EXT_KEYS.iter().map(|(k, _, _)| k.to_string()).chain(["side".to_string()]).map(|k| { let v = target.read(&k); (k, v) }).collect();
+    let r = block_on(async {
+        match level {
+            Level::Collection => coll.flush(anda_db::unix_ms()).await.map(|_| ()).map_err(|e| format!("flush: {e:?}"))?,
+            Level::Database => db.flush_metadata(anda_db::unix_ms()).await.map_err(|e| format!("flush_metadata: {e:?}"))?,
+        }
+        let snap = vcore::recstore::copy_store(store.as_ref()).await;
+        let db2 = connect(snap, &cfg).await.map_err(|e| format!("connect: {e:?}"))?;
+        let col2 = open_coll(&db2, set).await.map_err(|e| format!("open: {e:?}"))?;
+        let t2: &dyn ExtTarget = match level {
+            Level::Collection => &*col2,
+            Level::Database => &db2,
+        };
+        Ok::<_, String>(live.keys().map(|k| (k.clone(), t2.read(k))).collect::<BTreeMap<String, Option<Fv>>>())
+    });
+    st.count("oracle_extension_durable_after_threads");
+    match r {
+        Err(e) => st.violation(format!("C05/threads/{lv}/flush_or_reopen_failed"), json!({"error": e, "context": ctx()})),
+        Ok(re) if re != live => st.violation(format!("C05/threads/{lv}/extension_lost_or_changed_by_flush"), json!({"live": format!("{live:?}"), "reopened": format!("{re:?}"), "context": ctx()})),
+        Ok(_) => {}
+    }
+    st.distinct(case.wrapping_mul(0x9e3779b97f4a7c15) ^ 0xe7);
+    st.sample(|| json!({"section": "ext_threads", "level": lv, "threads": n_threads, "calls_per_thread": calls, "async_side_thread": side,
+        "final": live.iter().map(|(k, v)| format!("{k}={}", { let s = format!("{v:?}"); if s.len() > 60 { format!("{}..", &s[..60]) } else { s } })).collect::<Vec<_>>()}));
+}
+
 fn main() {
     let mut run = Run::from_args(
         "C05",
         "exploration",
         "one evaluation = one schedule (sequence of which task performs its next backend call) of one configuration of 2-4 \
          concurrent operations, judged by the four oracles; configurations are distinct by their operation set; every \
-         configuration is non-trivial (at least two concurrent operations over shared state)",
+         configuration is non-trivial (at least two concurrent operations over shared state). Section triples: one evaluation = \
+         one directed schedule (first call parked at one of its suspension points, two more calls queued, one release order) of \
+         one ordered triple of call kinds; section ext_threads: one evaluation = one run of 2-4 OS threads issuing functional \
+         extension updates whose histories are unambiguous",
     );
-    run.assume("scheduling points are the backend calls and tokio lock waits of the async code (every await of the collection is one of them); preemption inside synchronous sections is sampled by the multi-thread stress runs");
+    run.assume("scheduling points are the backend calls and tokio lock waits of the async code (every await of the collection is one of them); preemption inside synchronous sections is sampled by the multi-thread stress runs, and for the synchronous read-modify-write extension setters by OS threads that pause inside the caller's closure (section ext_threads)");
+    run.assume("a set of calls is wedged when no call is enabled although some have not returned: a call parked at a backend call wakes itself, so every unfinished call then waits for a lock that only another waiting call could release - decided without a clock");
+    run.assume("the database-level functional extension setters (AndaDB::set_extension_with / set_extension_from_with, rs/anda_db/src/database.rs is among the anchors) are held to the same read-modify-write serialization as the collection-level ones");
     run.assume("queries that overlap writers are run as load only; the property constrains overlapping reads of documents (get), which are checked against the version window of a valid order");
     run.assume("at the instant a flush returns no mutation body is running (flush holds the exclusive gate until its completing poll), so the snapshot must equal the state after exactly the mutations that had returned");
     let t = run.tier;
+    // the two enumerated / thread sections are cheap (seconds) and run first, so that the time-boxed
+    // exploration below can never squeeze them out
+    if run.wants("triples") {
+        let all = combos();
+        let thorough = t.pick(false, true);
+        run.parallel("triples", all.len() as u64, 0.3, |c, rng, st| triple_case(c, rng, st, &all, thorough));
+    }
+    if run.wants("ext_threads") {
+        let threads = run.threads;
+        run.threads = 4;
+        run.parallel("ext_threads", t.pick(192, 3000), 0.2, |c, rng, st| ext_threads_case(c, rng, st, t.pick(80, 200)));
+        run.threads = threads;
+    }
     if run.wants("sched") {
         run.parallel("configs", t.pick(120, 6000), 0.8, |c, rng, st| case(c, rng, st, t.pick(120, 1200)));
     }
@@ -749,6 +1614,35 @@ fn main() {
         run.floor(&format!("cop:{k}"), 10);
     }
     run.floor("stress_runs", 4);
+    // section `triples` (the enumeration is deterministic; the floors sit at a third of what it yields)
+    run.floor("triple_schedules", 1400);
+    run.floor("triple_park_points", 350);
+    run.floor("triple_second_call_queued_on_a_lock", 180);
+    run.floor("triple_exclusive_call_queued_on_the_gate", 300);
+    run.floor("triple_both_queued_behind_the_parked_call", 180);
+    run.floor_set("triple_combinations", 300);
+    run.floor_set("triple_combinations_with_both_queued", 50);
+    for k in ["update", "remove", "get", "add", "save_extension", "remove_extension"] {
+        run.floor(&format!("triple_first:{k}"), 20);
+    }
+    for k in ["flush", "compact", "compact_bm25", "reconcile", "close"] {
+        run.floor(&format!("triple_third:{k}"), 60);
+    }
+    run.floor("oracle_durable_after_concurrent_close", 300);
+    // section `ext_threads`
+    for lv in ["collection", "database"] {
+        run.floor(&format!("ext_thread_cases:{lv}"), 30);
+        // the setters really overlapped: closures that ran while another thread was inside a setter
+        run.floor(&format!("ext_thread_closures_run_while_another_caller_was_in_a_setter:{lv}"), 4000);
+    }
+    run.floor("ext_thread_calls:set_extension_with", 7000);
+    run.floor("ext_thread_calls:set_extension_from_with", 7000);
+    run.floor("ext_thread_updates:counter", 7000);
+    run.floor("ext_thread_updates:log", 7000);
+    run.floor("ext_thread_side_calls", 1500);
+    run.floor("ext_thread_logs_removed_under_the_setters", 120);
+    run.floor("oracle_extension_update_chains", 380);
+    run.floor("oracle_extension_durable_after_threads", 60);
     run.finish();
 }
 
